@@ -241,8 +241,13 @@ class ZeroDurationTask(Task):
 
     def __init__(self, **data) -> None:
         super().__init__(**data)
-        # add an assertion: end = start because the duration is zero
-        self.append_z3_assertion(self._start == self._end)
+        # end = start because the duration is zero, and the task cannot start before 0
+        assertions = [
+            self._start == self._end,
+            self._start >= 0,
+        ]
+
+        self.set_assertions(assertions)
 
 
 class FixedDurationTask(Task):
